@@ -1,4 +1,5 @@
 SPECIFICATION Spec
-CONSTANT N = 4
+CONSTANTS DoubleMembers = TRUE
+ N = 4
 INVARIANTS DecisionSound DecisionExact Emit
 CHECK_DEADLOCK FALSE
